@@ -1588,7 +1588,7 @@ void config_set_destructor(config_t *config, void (*destructor)(void *))
 void config_set_include_dir(config_t *config, const char *include_dir)
 {
   __delete(config->include_dir);
-  config->include_dir = strdup(include_dir);
+  config->include_dir = (include_dir == NULL) ? NULL : strdup(include_dir);
 }
 
 /* ------------------------------------------------------------------------- */
